@@ -292,6 +292,7 @@ def concurrent_cases(draw):
         gates[0] = n
     outcomes = [draw(st.sampled_from(["answer", "answer", "answer", "none", "raise"])) for _ in range(n)]
     return {"kind": "concurrent", "n": n, "gates": gates, "outcomes": outcomes, "sched": draw(conc.schedules(150)),
+            "send_delay": draw(st.sampled_from([0.0, 0.0, 0.03, 0.25, 0.6])),
             "hbh": draw(st.lists(st.sampled_from([1, 2, 3, 0x01020304, 0x01020305, 2**32 - 1]), min_size=n, max_size=n, unique=True))}
 
 
@@ -314,7 +315,7 @@ def run_concurrent(case):
             app, workers = inproc.make_app(["s6a"], manager=ShimManager(sched))
             app_id = struct.pack(">I", 16777251)
             worker = workers[app_id]
-            rec = Recorder(worker.app.config)
+            rec = Recorder(worker.app.config, sched, case.get("send_delay", 0.0))
             worker.app = rec
             entered = []
             reqs = []
@@ -388,7 +389,8 @@ def _collect_conc(shard, seed, n):
     col = Collector(PID, RULE)
 
     def body(case):
-        col.record(case, run_concurrent(case), nontrivial=True, classes=["concurrent-dispatch", f"concurrent-n={case['n']}"])
+        col.record(case, run_concurrent(case), nontrivial=True,
+                   classes=["concurrent-dispatch", f"concurrent-n={case['n']}"] + (["slow-connection"] if case.get("send_delay") else []))
 
     common.hyp_collect(concurrent_cases(), body, n, seed)
     return col
